@@ -1051,6 +1051,31 @@ class Block:
         self.subs = []  # (name, arg, text)
 
 
+INCLUDE = re.compile(r"^\s*//@include\s+(\S+)\s*$")
+
+
+def expand_includes(text, base_dir, depth=0):
+    """//@include <path relative to units/> : shared specification vocabulary, inlined verbatim"""
+    if depth > 4:
+        raise ExtractError("//@include nesting too deep")
+    out = []
+    for line in text.split("\n"):
+        m = INCLUDE.match(line)
+        if m:
+            path = os.path.join(base_dir, m.group(1))
+            try:
+                with open(path, encoding="utf-8") as f:
+                    inc = f.read()
+            except OSError as e:
+                raise ExtractError("cannot include %s: %s" % (m.group(1), e))
+            out.append("// ---- begin include %s" % m.group(1))
+            out.append(expand_includes(inc, base_dir, depth + 1))
+            out.append("// ---- end include %s" % m.group(1))
+        else:
+            out.append(line)
+    return "\n".join(out)
+
+
 def parse_template(text):
     """-> list of ('raw', text) | ('item', Block) | ('impl', Block, children)"""
     lines = text.split("\n")
@@ -1469,7 +1494,7 @@ class Unit:
     # -- whole template ---------------------------------------------------
     def build(self):
         with open(self.template_path, encoding="utf-8") as f:
-            tpl = parse_template(f.read())
+            tpl = parse_template(expand_includes(f.read(), os.path.dirname(os.path.abspath(self.template_path))))
         out = LineTrackingList(self.report["items"])
         for node in tpl:
             if node[0] == "unitprops":
